@@ -393,6 +393,8 @@ def run_schedule(spec, sched, n_runs=1, overlap=False, inputs=None, tag='', step
             timer_counts[(ridx, k[1])] = c + 1
             trec['gid'] = ['t', k[1], c]
             trec['run'] = ridx
+            if rt is not None:
+                rt.trace.append(['sleep', k[1], int(round((trec['when'] - loop.now) * 10))])
     loop.on_timer = on_timer
     snaps = [snapshot(built)]
     runs = []
